@@ -1,0 +1,8 @@
+//go:build !verif
+
+// Package verifhook provides instrumentation points for the verification harness.
+// Without the build tag "verif" every function is an empty, inlinable no-op.
+package verifhook
+
+// Point marks a named boundary (crash point, lock event, pause point). No-op in normal builds.
+func Point(name string, arg string) {}
